@@ -47,6 +47,14 @@ def programs(tier):
     out += [("xfer", ("chain", ("leaf", "Ii"), pX0), "sq"), ("xfer", ("chain", pX0, ("leaf", "Ii")), "it2"), ("mat", ("chain", ("leaf", "Ii"), pX0), "mz"),
             ("xfer", ("chain", ("leaf", "Is"), pS0), "it1"), ("xfer", ("chain", ("dedup", pX0), pX0), "sq"), ("xfer", ("chain", exists, pX0), "sq"),
             ("dedup", ("xfer", ("chain", ("leaf", "Ii"), ("leaf", "Ii")), "sq")), ("xfer", ("mat", ("chain", pS0, ("leaf", "Is")), "mz"), "it1")]
+    # materializations of relations statically known to be the join identity that are neither leaves nor transfers
+    for idn, other in ((("dedup", ("leaf", "Ii")), "sq"), (("dedup", ("leaf", "Is")), "it1"), (("proj", ("slice", X, 0, 1), ()), "sq"),
+                       (("chain", ("leaf", "Is"), ("proj", ("leaf", "0s"), ())), "it1"), (("proj", ("slice", ("xfer", X, "sq"), 0, 1), ()), "it2"),
+                       (("dedup", ("proj", ("slice", X, 1, 2), ())), "it2")):
+        out += [("mat", idn, "mj"), ("xfer", ("mat", idn, "mj"), other), ("dedup", ("xfer", ("mat", idn, "mj"), other)),
+                ("mat", ("mat", idn, "mj"), "mj2")]
+    out += [("join", ("mat", ("dedup", ("leaf", "Is")), "mj"), S, None), ("join", ("xfer", X, "sq"), ("mat", ("dedup", ("leaf", "Is")), "mj"), None),
+            ("xfer", ("join", S, ("mat", ("chain", ("leaf", "Is"), ("proj", ("leaf", "0s"), ())), "mj"), None), "it1")]
     selS = ("sel", S, ("gt", meprogs.A, ("lit", "$k1")))
     selX = ("sel", X, ("gt", meprogs.A, ("lit", "$k1")))
     for empty, live, other in ((("leaf", "0s"), selS, "it1"), (("leaf", "0i"), selX, "sq"), (("leaf", "0i"), selX, "it2")):
